@@ -9,6 +9,7 @@
 package harness
 
 import (
+	"encoding/base64"
 	"encoding/binary"
 	"encoding/json"
 	"fmt"
@@ -20,6 +21,7 @@ import (
 	"strconv"
 	"strings"
 	"testing"
+	"unicode/utf8"
 
 	"pgregory.net/rapid"
 )
@@ -401,4 +403,116 @@ func TestCrasherToReplay(t *testing.T) {
 	if err := os.WriteFile(dst, out, 0o644); err != nil {
 		t.Fatal(err)
 	}
+}
+
+// bstr is a string that survives JSON byte-exactly (invalid UTF-8 is stored as base64).
+type bstr string
+
+func (b bstr) MarshalJSON() ([]byte, error) {
+	if utf8.ValidString(string(b)) {
+		return json.Marshal(string(b))
+	}
+	return json.Marshal(map[string]string{"b64": base64.StdEncoding.EncodeToString([]byte(b))})
+}
+
+func (b *bstr) UnmarshalJSON(data []byte) error {
+	var s string
+	if err := json.Unmarshal(data, &s); err == nil {
+		*b = bstr(s)
+		return nil
+	}
+	var m map[string]string
+	if err := json.Unmarshal(data, &m); err != nil {
+		return err
+	}
+	raw, err := base64.StdEncoding.DecodeString(m["b64"])
+	if err != nil {
+		return err
+	}
+	*b = bstr(raw)
+	return nil
+}
+
+func bstrs(in []string) []bstr {
+	out := make([]bstr, len(in))
+	for i, s := range in {
+		out[i] = bstr(s)
+	}
+	return out
+}
+
+func unbstrs(in []bstr) []string {
+	out := make([]string, len(in))
+	for i, s := range in {
+		out[i] = string(s)
+	}
+	return out
+}
+
+// byte-exact JSON forms of the text-carrying cases
+
+func (c textCase) MarshalJSON() ([]byte, error) {
+	return json.Marshal(struct {
+		Input bstr   `json:"input"`
+		Kind  string `json:"kind,omitempty"`
+	}{bstr(c.Input), c.Kind})
+}
+
+func (c *textCase) UnmarshalJSON(data []byte) error {
+	var s struct {
+		Input bstr   `json:"input"`
+		Kind  string `json:"kind,omitempty"`
+	}
+	if err := json.Unmarshal(data, &s); err != nil {
+		return err
+	}
+	c.Input, c.Kind = string(s.Input), s.Kind
+	return nil
+}
+
+func (c c14Case) MarshalJSON() ([]byte, error) {
+	return json.Marshal(struct {
+		History []bstr `json:"history"`
+		Probe   bstr   `json:"probe"`
+	}{bstrs(c.History), bstr(c.Probe)})
+}
+
+func (c *c14Case) UnmarshalJSON(data []byte) error {
+	var s struct {
+		History []bstr `json:"history"`
+		Probe   bstr   `json:"probe"`
+	}
+	if err := json.Unmarshal(data, &s); err != nil {
+		return err
+	}
+	c.History, c.Probe = unbstrs(s.History), string(s.Probe)
+	return nil
+}
+
+type c05CaseJSON struct {
+	Pieces []bstr `json:"pieces"`
+	Input  bstr   `json:"input,omitempty"`
+	Seed   bstr   `json:"seed"`
+	Kind   string `json:"kind,omitempty"`
+	Expect string `json:"expect,omitempty"`
+}
+
+func (c c05Case) MarshalJSON() ([]byte, error) {
+	j := c05CaseJSON{Input: bstr(c.Input), Seed: bstr(c.Seed), Kind: c.Kind, Expect: c.Expect}
+	if c.Pieces != nil {
+		j.Pieces = bstrs(c.Pieces)
+	}
+	return json.Marshal(j)
+}
+
+func (c *c05Case) UnmarshalJSON(data []byte) error {
+	var j c05CaseJSON
+	if err := json.Unmarshal(data, &j); err != nil {
+		return err
+	}
+	*c = c05Case{Input: string(j.Input), Seed: string(j.Seed), Kind: j.Kind, Expect: j.Expect}
+	if j.Pieces != nil {
+		c.Pieces = unbstrs(j.Pieces)
+	}
+	return nil
 }
